@@ -148,7 +148,7 @@ func (rep *Report) nativePhase() error {
 		if len(cases) == 0 {
 			continue
 		}
-		results, log, err := runNative(rep.Repo, rep.Verif, pkg, runs[0].PkgName, fileList, cases, "")
+		results, log, err := runNative(rep.Repo, rep.Verif, pkg, runs[0].PkgName, fileList, rep.Spec.Clock, cases, "")
 		rep.NativeLog += log
 		if err != nil {
 			return err
@@ -207,7 +207,7 @@ func (rep *Report) nativePhase() error {
 				os.RemoveAll(dir)
 				lab, m := violationLabel(&cv.Path)
 				c := []nativeCase{{ID: 0, Harness: r.Spec.Name, Inputs: m, Chooses: cv.Path.Chooses, Params: r.Params, Kind: "violation"}}
-				runNative(rep.Repo, rep.Verif, pkg, r.PkgName, fileList, c, dir)
+				runNative(rep.Repo, rep.Verif, pkg, r.PkgName, fileList, rep.Spec.Clock, c, dir)
 				mj, _ := json.MarshalIndent(map[string]interface{}{"property": rep.Spec.Property, "harness": r.Spec.Name, "tier": rep.Tier, "expected_label": lab, "engine_outcome": cv.Path.Outcome, "engine_msg": cv.Path.Msg, "inputs": m, "decisions": cv.Path.Decisions, "chooses": cv.Path.Chooses, "params": r.Params, "native": cv.Native}, "", " ")
 				os.WriteFile(filepath.Join(dir, "model.json"), mj, 0o644)
 				cv.Replay = dir
